@@ -1,7 +1,7 @@
 """C06 - every well-formed stopping game is solved or declared unsolvable (exception discipline)."""
 import ast
 
-from ..loader import AnalysisError, attr_path, src, walk_no_nested_defs, norm_stmt, call_name
+from ..loader import AnalysisError, attr_path, src, walk_no_nested_defs, norm_stmt, call_name, resolve_test_name
 from ..symx import SymX, classify, show, C, TRUE, FALSE, simp, is_const, UNBOUND
 from ..nf import SELF_NEXT, SF
 from . import kernels as K
@@ -326,7 +326,7 @@ def _dominated_by_nonempty_test(ctx, f, node, path):
     for st in cfg.statements():
         if not isinstance(st, ast.If):
             continue
-        kind = _emptiness(st.test, path)
+        kind = _emptiness(resolve_test_name(f.node, st.test), path)
         if kind is None or not cfg.dominates(st, node) or cfg.stmt_of(node) is st:
             continue
         leaves = lambda blk: bool(blk) and isinstance(blk[-1], (ast.Return, ast.Raise, ast.Continue, ast.Break))
@@ -369,9 +369,8 @@ def _filter_nonempty_argument(ctx, f, node):
     cfg = ctx.cfg(f)
     guarded = False
     for st in cfg.statements():
-        if isinstance(st, ast.If) and isinstance(st.test, ast.UnaryOp) and isinstance(st.test.op, ast.Not) \
-                and isinstance(st.test.operand, ast.Name) and st.test.operand.id == strat and st.body \
-                and isinstance(st.body[-1], ast.Return) and cfg.dominates(st, node):
+        if isinstance(st, ast.If) and st.body and isinstance(st.body[-1], (ast.Return, ast.Raise)) and not st.orelse and cfg.dominates(st, node) \
+                and _emptiness(resolve_test_name(f.node, st.test), strat) == "empty":
             guarded = True
     if not guarded or strat not in f.params:
         return None
